@@ -222,14 +222,25 @@ for _ in range(40):
     def hu():
         _unpack_sdp_into_packet(t, bs); return "(" + ",".join(sdp_state(t)) + ")"
     add("unpack_sdp_into_packet " + sdp_args(p) + " " + L([int(b) for b in bytearray(bs)]), exc_(hu))
+def EV(evs):
+    return "[" + ",".join('{name:="%s",ints:=%s,bytes:=%s}' % (n, show(i), show(b)) for n, i, b in evs) + "]"
+from rig.machine_control import boot as _boot
+class Sock(object):
+    def __init__(self): self.sent = []
+    def send(self, b): self.sent.append(("send", [], [int(x) for x in bytearray(b)]))
+for _ in range(30):
+    vals = [rng.choice([0, 1, 3, 2**32 - 1, 2**32, -1, rng.getrandbits(32)]) for _ in range(4)]
+    data = bytes(bytearray(rng.getrandbits(8) for _ in range(rng.choice([0, 4, 8, 12, 3, 6]))))
+    sk = Sock()
+    def hb():
+        _boot.boot_packet(sk, vals[0], vals[1], vals[2], vals[3], data); return EV(sk.sent)
+    add("boot_packet %s %s %s %s %s %d" % (L(vals[0]), L(vals[1]), L(vals[2]), L(vals[3]), L([int(b) for b in bytearray(data)]), len(data) // 4 + 1), exc_(hb))
 import warnings as _w
 class PRec(object):
     _freed = False
     def __init__(self): self.ev = []
     def _perform_read(self, a, n): self.ev.append(("_perform_read", [a, n], [])); return b"\x07" * 3
     def _perform_write(self, a, d): self.ev.append(("_perform_write", [a], [int(b) for b in bytearray(d)]))
-def EV(evs):
-    return "[" + ",".join('{name:="%s",ints:=%s,bytes:=%s}' % (n, show(i), show(b)) for n, i, b in evs) + "]"
 for _ in range(60):
     s_, e_, off = rng.randint(0, 30), rng.randint(0, 40), rng.randint(-5, 45)
     par = PRec(); v = SlicedMemoryIO(par, s_, e_); v._offset = off
